@@ -169,7 +169,7 @@ def act_lines(run, mod):
         if kind == "invoke":
             op = json.loads(val)
             if op[0] in ("enable", "disable"):
-                if not isinstance(op[1], str):
+                if not (op[1] is None or isinstance(op[1], str)):
                     return None
                 st[t] = {"op": "change", "name": op[1], "status": op[0] == "enable"}
                 emit("%d startChange" % t)
@@ -202,7 +202,8 @@ def act_lines(run, mod):
                 cur["d"] = nextdict[0]
                 nextdict[0] += 1
                 emit("%d copy" % t, ("copy", cur["d"]))
-            elif kind == "W" and obj == "core.activation_list":
+            elif kind == "W" and obj in ("core.activation_list", "core.activation_none"):
+                # a change naming None publishes `activation_none` instead of the rule list: same protocol step
                 rules.append((cur["name"], cur["status"]))
                 emit("%d pubAct" % t)
             elif kind == "W" and obj == "core.enabled":
@@ -218,7 +219,7 @@ def act_lines(run, mod):
                     emit("%d readEn %d" % (t, d), ("readEn", cur["miss"], cur["id"]))
                 else:
                     emit("%d readEn2 %d" % (t, d))
-            elif kind == "Rv" and obj == "core.activation_list":
+            elif kind == "Rv" and obj in ("core.activation_list", "core.activation_none"):
                 emit("%d readAct %d" % (t, len(rules)))
                 emit("%d fill" % t)
     return out, meta, rules
